@@ -99,7 +99,7 @@ def run(chk):
     diff = [k for k in common if summ[SE][k] != summ[TSM][k]]
     chk.ob("R-SE-SIB", "calc_surface_energy~get_time_shift_motions", "identical wave construction (%d shared items)" % len(common),
            not diff and len(common) >= 8, derived=("differ on %s: %s vs %s" % (diff, [summ[SE][k] for k in diff], [summ[TSM][k] for k in diff]))
-           if diff else "equal on %s" % common)
+           if diff else "equal on %s" % common, inconclusive=(not diff and len(common) < 8))       # too little extracted to compare: not located
     # ------------------------------------------------------------------ join
     fj = P.fn(TS + "join_values_w_shifts")
     cj = "eqsig/fns/time_shift.py:join_values_w_shifts"
